@@ -309,17 +309,24 @@ pub fn compute_event(m: &Model, it: &mut Interner, same_as_last: bool) -> Value 
             "vgross": qv(i.vol_env_gross, 1e2, "vg", &mut b2), "vnet": qv(i.vol_env_net, 1e2, "vn", &mut b2), "compact": qv(i.compactness, 1e4, "c", &mut b2),
             "q": qv(i.q_soljul_data.q_soljul, 1e4, "q", &mut b2), "ok": b2.is_empty()})
     };
+    // a permutation that also separates neighbours: even positions first, then the odd ones backwards
+    fn scatter<T: Clone>(v: &mut Vec<T>) {
+        let evens: Vec<T> = v.iter().step_by(2).cloned().collect();
+        let mut odds: Vec<T> = v.iter().skip(1).step_by(2).cloned().collect();
+        odds.reverse();
+        *v = evens.into_iter().chain(odds.into_iter()).collect();
+    }
     let mut mr = m.clone();
-    mr.spaces.reverse();
-    mr.walls.reverse();
-    mr.windows.reverse();
-    mr.thermal_bridges.reverse();
-    mr.shades.reverse();
-    mr.cons.wallcons.reverse();
-    mr.cons.wincons.reverse();
-    mr.cons.materials.reverse();
-    mr.cons.glasses.reverse();
-    mr.cons.frames.reverse();
+    scatter(&mut mr.spaces);
+    scatter(&mut mr.walls);
+    scatter(&mut mr.windows);
+    scatter(&mut mr.thermal_bridges);
+    scatter(&mut mr.shades);
+    scatter(&mut mr.cons.wallcons);
+    scatter(&mut mr.cons.wincons);
+    scatter(&mut mr.cons.materials);
+    scatter(&mut mr.cons.glasses);
+    scatter(&mut mr.cons.frames);
     for (k, x) in mr.spaces.iter_mut().enumerate() { x.name = format!("renamed space {}", k); }
     for (k, x) in mr.walls.iter_mut().enumerate() { x.name = format!("renamed wall {}", k); }
     for (k, x) in mr.windows.iter_mut().enumerate() { x.name = format!("renamed window {}", k); }
